@@ -71,7 +71,7 @@ pub(crate) mod verif_vm {
         let chunk = Chunk {
             lines: vec![0; code.len()],
             code,
-            constant_map: HashMap::with_hasher(crate::verif_stubs::random_state_stub()),
+            constant_map: std::collections::HashMap::with_hasher(crate::verif_stubs::random_state_stub()),
             constants: Vec::new(),
         };
         let chunk = leak_gc(chunk);
@@ -99,7 +99,7 @@ pub(crate) mod verif_vm {
             self.chunk = Some(Placed::new(Chunk {
                 lines: vec![0; code.len()],
                 code,
-                constant_map: HashMap::with_hasher(crate::verif_stubs::random_state_stub()),
+                constant_map: std::collections::HashMap::with_hasher(crate::verif_stubs::random_state_stub()),
                 constants: Vec::new(),
             }));
             let chunk = self.chunk.as_mut().unwrap().gc();
